@@ -141,8 +141,12 @@ class Builder:
             ns['ids'] = meta(idsf)
         else:
             if d.get('inherit') is not None:
-                ns['__inherit__'] = d['inherit'] if isinstance(d['inherit'], bool) else \
-                    (d['inherit'][0] if d.get('inherit_str') and len(d['inherit']) == 1 else tuple(d['inherit']))
+                if d.get('inherit_set') and not isinstance(d['inherit'], bool):
+                    # the names as a SET object that its owner keeps using (and changing) after the class statement
+                    ns['__inherit__'] = mutable_inherit = set(d['inherit'])
+                else:
+                    ns['__inherit__'] = d['inherit'] if isinstance(d['inherit'], bool) else \
+                        (d['inherit'][0] if d.get('inherit_str') and len(d['inherit']) == 1 else tuple(d['inherit']))
             if d.get('exclude') is not None:
                 ns['__exclude__'] = d['exclude'][0] if d.get('exclude_str') and len(d['exclude']) == 1 else tuple(d['exclude'])
         if d['k'] == 'split':
@@ -154,6 +158,11 @@ class Builder:
         for name, spec in d.get('inverses', {}).items():
             ns[name] = self.decorate(self.fn(spec, key + '.inv', name), dict(spec, inv=True))
         cls = APIMeta(key, (base,), ns)
+        if d.get('inherit_set') and not isinstance(d.get('inherit'), bool) and d.get('inherit') is not None:
+            # what happens to the caller's set afterwards is none of the layer's business
+            extra = [x for x in ('a', 'b', 'c', 'd', 'e', 'ab', 'id') if x not in d['inherit']]
+            mutable_inherit.update(extra[:2])
+            mutable_inherit.discard(d['inherit'][0])
         self.classes[ckey] = cls
         return cls
 
@@ -176,6 +185,11 @@ class Builder:
         if k in ('source', 'transform', 'split'):
             cls = self.make_class(d)
             return cls(**{a: _to_py(v) for a, v in d.get('cargs', {}).items()})
+        if k == 'apply' and d.get('partial'):
+            # ONE callable object that is pickled by value (a functools.partial) behind several edges
+            import functools
+            shared = functools.partial(self.world.fn(d['partial'], params=['v']))
+            return c.Apply(**{n: shared for n in d['fns']})
         if k == 'apply':
             return c.Apply(**{n: self.world.fn(f, params=[n]) for n, f in d['fns'].items()})
         if k == 'ram':
